@@ -679,6 +679,8 @@ class Interp:
             return Mat.fill(r, c, Cx(z, z) if cplx else z, 'matrix' if n == 'Eigen::Matrix' else 'array', cplx)
         if n in ('std::string',):
             return ''
+        if n in ('std::vector',):
+            return []
         if n not in self.w.classes and n.split('::')[-1] in self.w.classes:
             n = n.split('::')[-1]
         if n in self.w.classes:
@@ -1268,13 +1270,19 @@ class Interp:
             return lnot(self.ev(e.e))
         if op in ('++', '--'):
             g, s = self.lvalue(e.e)
-            v = add(g(), 1) if op == '++' else sub(g(), 1)
+            cur = g()
+            if isinstance(cur, tuple) and cur and cur[0] == 'vit':
+                v = ('vit', cur[1], cur[2] + (1 if op == '++' else -1))
+            else:
+                v = add(cur, 1) if op == '++' else sub(cur, 1)
             s(v)
             return v
         if op == '*':
             v = self.ev(e.e)
             if isinstance(v, (Cell, FieldCell)):
                 return v.v
+            if isinstance(v, tuple) and v and v[0] == 'vit':
+                return v[1][v[2]]
             return v     # pointers to objects are the objects
         if op == '&':
             c = self.try_lvalue_cell(e.e)
@@ -1286,6 +1294,9 @@ class Interp:
     def ev_Postfix(self, e):
         g, s = self.lvalue(e.e)
         old = g()
+        if isinstance(old, tuple) and old and old[0] == 'vit':
+            s(('vit', old[1], old[2] + (1 if e.op == '++' else -1)))
+            return old
         s(add(old, 1) if e.op == '++' else sub(old, 1))
         return old
 
@@ -1351,8 +1362,11 @@ class Interp:
                 return l
             return mod(l, r)
         if op in ('<', '>', '<=', '>=', '==', '!='):
-            if isinstance(l, PyModel) or isinstance(r, PyModel) or (isinstance(l, tuple) and l and l[0] == 'iter') or (isinstance(r, tuple) and r and r[0] == 'iter'):
-                eqv = (l == r)
+            if isinstance(l, PyModel) or isinstance(r, PyModel) or (isinstance(l, tuple) and l and l[0] in ('iter', 'vit')) or (isinstance(r, tuple) and r and r[0] in ('iter', 'vit')):
+                if isinstance(l, tuple) and isinstance(r, tuple) and l[0] == 'vit' and r[0] == 'vit':
+                    eqv = (l[1] is r[1] and l[2] == r[2])
+                else:
+                    eqv = (l == r)
                 return eqv if op == '==' else (not eqv)
             if l is None or r is None or isinstance(l, Obj) or isinstance(r, Obj):
                 if op == '==':
@@ -1730,6 +1744,25 @@ class Interp:
                 return o
             if name in ('precision', 'width', 'setf', 'flags'):
                 return 0
+        if isinstance(o, list):
+            if name == 'push_back' or name == 'emplace_back':
+                o.append(deep_copy(args[0])); return None
+            if name == 'clear':
+                del o[:]; return None
+            if name == 'empty':
+                return len(o) == 0
+            if name in ('begin', 'cbegin'):
+                return ('vit', o, 0)
+            if name in ('end', 'cend'):
+                return ('vit', o, len(o))
+            if name == 'erase':
+                a, b = args[0], (args[1] if len(args) > 1 else ('vit', o, args[0][2] + 1))
+                del o[a[2]:b[2]]
+                return ('vit', o, a[2])
+            if name == 'back':
+                return o[-1]
+            if name == 'front':
+                return o[0]
         if isinstance(o, (list, tuple)):
             if name == 'size':
                 return len(o)
@@ -1771,6 +1804,13 @@ class Interp:
             return m.map(lambda x: mul(x, x))
         if name == 'cwiseSqrt' or name == 'sqrt':
             return m.map(self.m_sqrt)
+        if name in ('log', 'exp'):
+            if self.mode == 'float':
+                f = (lambda x: (math.log(x) if x > 0 else (-math.inf if x == 0 else math.nan))) if name == 'log' else math.exp
+                return m.map(lambda x: f(float(x)))
+            return m.map(lambda x: self.m_unary_uf('ln' if name == 'log' else 'exp', None, x, domain=(lambda t: t > 0) if name == 'log' else None))
+        if name == 'pow':
+            return m.map(lambda x: self.m_pow(x, args[0]))
         if name == 'cwiseInverse' or name == 'inverse' and m.kind == 'array':
             return m.map(lambda x: div(1, x))
         if name == 'cwiseProduct':
@@ -2061,6 +2101,23 @@ class Interp:
             return None
         if s in ('std::move', 'std::forward', 'std::ref', 'std::cref'):
             return A()[0]
+        if s in ('std::sort', 'std::unique'):
+            a = A()
+            if len(a) >= 2 and isinstance(a[0], tuple) and a[0][0] == 'vit' and all(not is_sym(x) for x in a[0][1]):
+                lst, i0, i1 = a[0][1], a[0][2], a[1][2]
+                seg = lst[i0:i1]
+                if s == 'std::sort':
+                    if len(a) > 2:
+                        raise Unsupported('std::sort with comparator')
+                    lst[i0:i1] = sorted(seg)
+                    return None
+                out = []
+                for x in seg:
+                    if not out or out[-1] != x:
+                        out.append(x)
+                lst[i0:i1] = out + seg[len(out):]
+                return ('vit', lst, i0 + len(out))
+            raise Unsupported(s + ' on symbolic data')
         if s in ('std::ostringstream', 'std::stringstream'):
             return Stream()
         if s == 'boost::format':
